@@ -169,8 +169,9 @@ Shorten(n) ==
        IF n \div u < 10
        THEN {ToString(t \div 10) \o "." \o ToString(t % 10) \o SuffixOf(u) : t \in RoundSet(n, u \div 10)}
        ELSE {ToString(w) \o SuffixOf(u) : w \in RoundSet(n, u)}
-Fnames(name, grid, n, gen, hd) ==
-  {name \o "-g" \o ToString(grid) \o "-n" \o s \o "-a_" \o GenPiece(gen) \o "-h" \o ToString(Last5(hd)) : s \in Shorten(n)}
+\* h5 = hash mod 10^5 as a number
+Fnames(name, grid, n, gen, h5) ==
+  {name \o "-g" \o ToString(grid) \o "-n" \o s \o "-a_" \o GenPiece(gen) \o "-h" \o ToString(h5) : s \in Shorten(n)}
 
 ASSUME ShortenExamples ==
   /\ Shorten(0) = {"0"} /\ Shorten(999) = {"999"} /\ Shorten(1001) = {"1.0K"} /\ Shorten(1234) = {"1.2K"}
@@ -181,8 +182,8 @@ ASSUME ShortenExamples ==
 ASSUME FnameExamples ==
   /\ Last5(<<"1","0","4","1","7","2","8","8">>) = 17288
   /\ Last5(<<"9","9","0","0","1","2","3">>) = 123 /\ Last5(<<"7">>) = 7 /\ Last5(<<"5","0","0","0","0","0">>) = 0
-  /\ Fnames("t", 3, 1500, "gen_dfs_percolation", <<"6","1","7","2","8","8">>) = {"t-g3-n1.5K-a_dfs_percolation-h17288"}
-  /\ Fnames("demo", 10, 5, "gen_dfs", <<"4","2","0","0","1","2","3">>) = {"demo-g10-n5-a_dfs-h123"}   \* not h00123
+  /\ Fnames("t", 3, 1500, "gen_dfs_percolation", Last5(<<"6","1","7","2","8","8">>)) = {"t-g3-n1.5K-a_dfs_percolation-h17288"}
+  /\ Fnames("demo", 10, 5, "gen_dfs", Last5(<<"4","2","0","0","1","2","3">>)) = {"demo-g10-n5-a_dfs-h123"}   \* not h00123
 
 \* ------------------------------------------------------------------ design-level domains (sequences: no set of trees is ever built)
 DNames == <<"a", "b">>
